@@ -343,6 +343,42 @@ def plan_c14(tier, seed):
                         "exit_children": 30, "scopes": 2000, "replayed_requests": 500})
 
 
+STL_CONTAINERS = ["list", "forward_list", "set", "multiset", "map", "multimap", "unordered_set", "unordered_map", "vector", "deque", "basic_string"]
+STL_PROGRAM_KINDS = ["%s/%s" % (c, a) for a in ("std_allocator", "any_std_allocator") for c in STL_CONTAINERS] + ["smart-pointers"]
+NODESIZE_KINDS = ["forward_list", "list", "set", "multiset", "unordered_set", "unordered_multiset", "map", "multimap", "unordered_map",
+                  "unordered_multimap", "shared_ptr"]
+
+
+def plan_c10(tier, seed):
+    q = tier == "quick"
+    cfgs = ["rwd"] if q else ["rwd", "dbg"]
+    n = _scale(tier, 40, 1200)
+    jobs = []
+    for cfg in cfgs:
+        for k in STL_PROGRAM_KINDS:
+            jobs += [Job("h_stl", cfg, "asan", "programs", k, c, ops=_scale(tier, 150, 300), cpu=600) for c in chunks(n, 40 if q else 200)]
+    if q:
+        for k in NODESIZE_KINDS:
+            jobs.append(Job("h_stl", "rwd", "asan", "nodesize", k, (0, 50), cpu=600))
+    else:
+        for k in NODESIZE_KINDS:
+            jobs += [Job("h_stl", "rwd", "asan", "nodesize", k, c, defines=("VERIF_FULL_GRID",), cpu=900) for c in chunks(248, 62)]
+    return dict(jobs=jobs, level="exploration",
+                rule="(programs) case = (configuration, container kind x {std_allocator, any_std_allocator}, index): two containers bound to the same or "
+                     "to different instrumented allocator objects run a seeded program of insert / erase / clear / copy and move assignment / swap / "
+                     "copy construction (plain and with allocator) / move construction with allocator / splice (only issued when get_allocator() == "
+                     "says equal); every release reaching a leaf that did not hand the memory out, a shape mismatch, unbalanced leaves at the end, "
+                     "contents differing from std::allocator mirror containers, or an operator== that disagrees with which leaf the allocators really "
+                     "allocate from (determined by a probing allocation) is a violation. (nodesize) for element types elem<S,A> (quick 50 types, "
+                     "thorough all 248 with A in 1..16, S a multiple of A up to 128) and 11 node containers a recording allocator measures the "
+                     "largest single-node request and compares it with X_node_size<T>::value as generated by the repository's configure-time probe on "
+                     "the current tree; then the container runs on a real memory_pool<node_pool> created with that constant. non-trivial = every "
+                     "completed case; distinct = FNV-1a of kind, configuration and operation sequence",
+                assumptions=ASSUME_COMMON + ["libstdc++ of this image; swap is only issued when the allocators propagate on swap or compare equal"],
+                minima={"cases": 500, "distinct_nontrivial": 300, "equality_checks": 3000, "inserts": 30000, "node_size_measurements": 400,
+                        "pool_nodes_served": 20000, "smart_ops": 1000})
+
+
 JOINT_KINDS = ["J<1/1,4/4>", "J<3/1,16/16>", "J<16/16,2/2>", "J<24/8,12/4>", "J<8/8,32/16>", "J<6/2,5/1>"]
 
 
@@ -554,6 +590,7 @@ PLANS = {
     "C07": plan_c07,
     "C08": plan_c08,
     "C09": plan_c09,
+    "C10": plan_c10,
     "C11": plan_c11,
     "C12": plan_c12,
     "C20": plan_c20,
